@@ -212,6 +212,9 @@ def run(gen, gen_path, externs, extra_flags=(), timeout=1500, verify_fn=None, ex
             for fi in gen.functions:
                 if fnk and ('%s:%s' % (fi['file'], fi['path'])) == fnk.split('#')[0]:
                     tg = set(fi['tags'])
+        kt = getattr(gen, 'kind_tags', {})
+        if kind in kt:
+            tg = set(kt[kind].split())
         f.tags = tg
         cl = ''
         if f.markers:
